@@ -83,6 +83,12 @@ fn compartmentalize_map(map: &mut Mapping) {
     }
 }
 
+/// Mappings with an `<any>` key are created by `compartmentalize` to route
+/// wildcard entries to submodules, they are no configuration values.
+fn is_wildcard_node(value: &Value) -> bool {
+    value.as_mapping().is_some_and(|map| map.contains_key(ANY))
+}
+
 impl Props {
     pub fn update_from(&mut self, base: &Value, path: &[&str]) {
         if path.is_empty() {
@@ -91,7 +97,7 @@ impl Props {
                     let Value::String(k) = k else {
                         continue;
                     };
-                    if k.contains(ANY) {
+                    if k.contains(ANY) || is_wildcard_node(v) {
                         continue;
                     }
                     self.set(k.clone(), v.clone());
@@ -124,6 +130,9 @@ impl Props {
                 let Some(entry) = map.get(matching_key) else {
                     continue;
                 };
+                if is_wildcard_node(entry) {
+                    continue;
+                }
                 let remaining = &matching_key[(key.len() + 1)..];
                 self.set(remaining.to_string(), entry.clone());
             }
